@@ -1046,11 +1046,24 @@ def merge_part(dst, src):
         for e in o['examples']:
             if len(t['examples']) < 10 and e not in t['examples']: t['examples'].append(e)
 
+def mp_item(env, item):
+    """several processes on one token (the serialised interleavings of checks/c15.py, create / set / destroy / find / get on shared labels, stale handles included):
+    here only the C17 question is asked - does any process get terminated?"""
+    import c15
+    src = c15.serial_job(dict(paths=env['paths'], hdr=env['hdr'], scratch=env['scratch'], kind='serial', backend=item['backend'], cfg=env['cfg'], seed=item['seed'], nproc=item['nproc'], cases=item['cases'], perms=None, deaths='violation'))
+    p = Part(); p.evaluations = src.evaluations; p.distinct = {('multi-process', item['backend'], item['nproc'])} if src.evaluations else set()
+    for k, v in src.viol.items():
+        if k.startswith('DEATH|'): p.viol[k[6:]] = v; p.count('deaths')
+    p.count('mp_interleavings', src.evaluations)
+    for w in src.inconclusive: p.observe('multi-process lane: run not completed', w[:200])
+    if len(p.samples) < 1 and src.samples: p.samples.append({'mode': 'multi-process', 'backend': item['backend'], 'nproc': item['nproc'], **(src.samples[0] if isinstance(src.samples[0], dict) else {})})
+    return p
 def run_item(job, env, item):
     p = Part()
     if job['mode'] == 'grid':
         fam, lo, hi = item; run_cells(env, fam, grid_cells(fam, env['ck'], env['seed'], env['scale'])[lo:hi], p)
     elif job['mode'] == 'api': run_sequence(env, item, p)
+    elif job['mode'] == 'mp': return mp_item(env, item)
     else: file_case(env, item, p)
     return p
 
@@ -1076,6 +1089,7 @@ def worker(job):
 def run(ctx):
     ctx.rule = ('(a) API fuzz: per sequence a fresh executor on a clone of a golden token directory (2 tokens, every object kind, user logged in, stale handles), then N calls drawn over all 68 entry points, '
                 'each a well-formed base request with 0-3 hostile edits (handles, lengths, buffers, templates, mechanism parameters, key/mechanism mismatches), then a well-formed epilogue; '
+                '(c) multi-process lane: serialised interleavings of 2-3 processes on one token (create / set / destroy / find / get on shared labels, handles of objects another process destroyed), file and db back-ends, judged only for termination; '
                 '(b) file fuzz: one structure-aware mutation of object file / token.object / generation / SQLite db / softhsm2.conf / directory layout per case, then a fixed recovery probe in a fresh executor. '
                 'One evaluation = one hostile-sequence call or one mutated-file case; distinct = (entry point, hostile-input tag) pairs actually sent + distinct file-mutation classes; '
                 'violations: Died (ASan, signal, exit/abort/assert), UBSan null/bounds/object-size, non-CKR return value, reproduced hang')
@@ -1093,6 +1107,8 @@ def run(ctx):
             if True:
                 ncell = len(grid_cells(fam, ctx.ck, ctx.seed, scale)); b = BATCH[fam]
                 for lo in range(0, ncell, b * 4): jobs.append(dict(mode='grid', env=dict(base, golden=ga, scale=scale), items=[(fam, i, min(i + b, ncell, lo + b * 4)) for i in range(lo, min(lo + b * 4, ncell), b)]))
+        if cfg == 'asan':      # several processes sharing the token (both tiers, both back-ends)
+            for i in range(ctx.q(2, 8)): jobs.append(dict(mode='mp', env=dict(base, golden=ga), items=[dict(backend=be, seed=ctx.seed * 1000 + 40 + i, nproc=2 + (i % 2), cases=ctx.q(40, 100))]))
         n = int(nseq * share); items = list(range(seq0, seq0 + n)); seq0 += n
         for i in range(0, n, 20): jobs.append(dict(mode='api', env=dict(base, golden=ga), items=items[i:i + 20]))
         dirs = directed_items(dict(base, golden=gf, ck=ctx.ck))
